@@ -21,6 +21,15 @@ Sub-checks
             every literal form of the alphabet (bool / int / float spellings / strings / none / inline, quoted and
             block arrays / tables) at root, below a group and behind a dotted name, with sentinel nodes around it
   pairs     (thorough) every ordered pair of a representative subset of the literals in one program
+  sequences HISTORIES of parses in one process (the statement holds for every parse, not only for the first one of a
+            process): case = 2 or 3 texts parsed one after the other by separate DIP() objects, every parse compared
+            with its own reference.  Pool = every tree of <= 3 lines over group / definition / table (thorough: also
+            dotted definitions) in which equal names, equal line texts and equal table blocks recur at other places of
+            the hierarchy; every ORDERED PAIR of pool programs (the second one in a rotating layout), every program
+            followed by itself in every layout (6 width assignments x 4 base indentations x 2 entry points), and every
+            ordered TRIPLE of the programs of <= 2 lines.  Everything the library keeps on classes / modules
+            (containers, mutable defaults, lru caches) is put back to its import-time content between cases, so that
+            a case never depends on what its worker executed before and replays in a fresh process.
 
 Not demanded (left out of the alphabet): tab indentation, inconsistent sibling indentation, escapes inside strings,
 string arrays with single-quoted elements (arrays are specified as JSON), indented content lines of blocks, nodes
@@ -38,13 +47,19 @@ PROPERTY = "C13"
 LEVEL = "exploration"
 RULE = ("case = one DIP text; cases are enumerated as (tree shape, line kinds, value-form phase, indentation widths, "
         "decorations) or (literal, placement); de-duplicated by the rendered text (shards are cut by tree shape / "
-        "literal so equal texts always meet in one shard); non-trivial = the expected environment has >= 1 parameter")
+        "literal so equal texts always meet in one shard); non-trivial = the expected environment has >= 1 parameter; "
+        "sequences: case = ordered history of 2-3 such texts parsed in one process (pool programs and the layout of "
+        "each step), de-duplicated by the tuple of (entry point, text), cut into shards by the first program; "
+        "class-/module-level state of scinumtools.dip is restored to its import-time content after every case")
 ASSUMPTIONS = [
     "the reference interprets the generator's AST (parent = enclosing AST node); a self-check asserts for every case "
     "that this equals the statement's textual rule (nearest preceding node/group line with smaller indentation)",
     "numeric payloads are compared by value (10 == 10.0); bool / str / none / list kinds must match exactly; floats "
     "are compared bit-exactly with the hand-written expected value",
     "unit tables are restored (mc/isolation.py) after every case that raised; cases of this property define no units",
+    "state shared between parses is looked for on the classes and modules of scinumtools.dip (containers, mutable "
+    "default arguments, new attributes, lru caches); it is restored after every case, and only the `sequences` "
+    "sub-check (2-3 parses inside one case) observes what one parse leaves behind for the next",
 ]
 
 NAMES = "abcdefgh"
@@ -92,8 +107,10 @@ def value_form(i, j):
 LAYOUT_FORMS = (0, 1, 4, 6)        # int, float with unit, single-quoted and double-quoted string
 
 
-def build_tree(depths, kinds, phase, forms=None):
-    """AST of a tree; None if the kind sequence is not applicable (dotted reference without preceding sibling)."""
+def build_tree(depths, kinds, phase, forms=None, tab=None):
+    """AST of a tree; None if the kind sequence is not applicable (dotted reference without preceding sibling).
+    tab: None = the table on line i has the columns TREE_TABLES[(i + phase) % 3]; k = every table has TREE_TABLES[k]
+    (equal table blocks at different places of the hierarchy)"""
     prog = []
     stack = []                                     # [depth, number of children so far, first component of last child]
     root = [-1, 0, None]
@@ -119,7 +136,7 @@ def build_tree(depths, kinds, phase, forms=None):
             # a table is a leaf: the line after it must not be indented deeper (nodes below a table are not demanded)
             if i + 1 < len(depths) and depths[i + 1] > d:
                 return None
-            cols = [COLS[c] for c in TREE_TABLES[(i + phase) % len(TREE_TABLES)]]
+            cols = [COLS[c] for c in TREE_TABLES[((i + phase) if tab is None else tab) % len(TREE_TABLES)]]
             prog.append(table_line(cols, 2, name, d))
         elif k in ("G", "Gd"):
             prog.append(dict(k="group", d=d, name=name))
@@ -478,7 +495,7 @@ def make_case(desc):
     """desc (JSON-able) -> (prog, widths, per_parent, tags)   or None if not applicable"""
     sub = desc["sub"]
     if sub in ("trees", "tabletrees"):
-        prog = build_tree(desc["depths"], desc["kinds"], desc["phase"])
+        prog = build_tree(desc["depths"], desc["kinds"], desc["phase"], tab=desc.get("tab"))
         if prog is None:
             return None
         tags = {"tree"} | ({"table", "table-in-tree"} if sub == "tabletrees" else set())
@@ -515,8 +532,219 @@ def make_case(desc):
     raise HarnessError("unknown sub-check %r" % sub)
 
 
+# ------------------------------------------------------------------------------------------------ state between parses
+_STATE = None
+
+
+def _dip_modules():
+    import sys
+    import scinumtools.dip                                   # noqa: F401
+    return [m for n, m in sorted(sys.modules.items())
+            if (n == "scinumtools.dip" or n.startswith("scinumtools.dip.")) and ".docs" not in n and m is not None]
+
+
+def state_snapshot():
+    """import-time content of everything scinumtools.dip keeps outside its objects (call before the first parse)"""
+    global _STATE
+    import copy
+    import enum
+    import inspect
+    mods = _dip_modules()
+    classes = []
+    for m in mods:
+        for v in list(vars(m).values()):
+            if inspect.isclass(v) and v.__module__ == m.__name__ and not issubclass(v, enum.Enum) \
+                    and v not in classes:
+                classes.append(v)
+    isolation.class_state_snapshot(classes)
+    conts, caches = {}, []
+    for m in mods:
+        for k, v in list(vars(m).items()):
+            if not k.startswith("__") and isinstance(v, (list, dict, set)):
+                conts[(m.__name__, k)] = (v, copy.deepcopy(v))
+    for owner in mods + classes:
+        for v in list(vars(owner).values()):
+            v = getattr(v, "__func__", v)
+            v = getattr(v, "fget", v)
+            if callable(getattr(v, "cache_clear", None)) and v not in caches:
+                caches.append(v)
+    _STATE = dict(mods=mods, names={m.__name__: set(vars(m)) for m in mods}, conts=conts, caches=caches)
+
+
+def state_restore():
+    """put it back in place -> list of what had changed (nothing a case did can reach the next case)"""
+    if _STATE is None:
+        return []
+    import copy
+    changed = isolation.class_state_restore()
+    for (mod, name), (obj, pristine) in _STATE["conts"].items():
+        if obj != pristine:
+            changed.append("%s:%s" % (mod, name))
+            if isinstance(obj, list):
+                obj[:] = copy.deepcopy(pristine)
+            else:
+                obj.clear()
+                obj.update(copy.deepcopy(pristine))
+    for m in _STATE["mods"]:
+        if len(vars(m)) == len(_STATE["names"][m.__name__]):
+            continue
+        for name in set(vars(m)) - _STATE["names"][m.__name__]:
+            v = vars(m).get(name)
+            if isinstance(v, (list, dict, set)) and v:       # a container created lazily at module level
+                changed.append("%s:%s:new" % (m.__name__, name))
+                v.clear()
+    for c in _STATE["caches"]:
+        c.cache_clear()
+    return changed
+
+
+# ------------------------------------------------------------------------------------------------ histories of parses
+SEQ_TAB = 0                           # every table of a pool program has the columns TREE_TABLES[0] (time, snapshot)
+SEQ_BOUNDS = dict(
+    quick=dict(kinds=("G", "D", "T"), pair_lines=3, triple_lines=2),
+    thorough=dict(kinds=("G", "D", "T", "Pd"), pair_lines=3, triple_lines=2),
+)
+_POOLS = {}
+
+
+def seq_pool(kindset, maxn):
+    """every tree of <= maxn lines over `kindset` that defines something: [(depths, kinds)], in a fixed order"""
+    key = (tuple(kindset), maxn)
+    if key not in _POOLS:
+        out = []
+        for n in range(1, maxn + 1):
+            for ds in depth_seqs(n):
+                for kinds in itertools.product(kindset, repeat=n):
+                    if not any(x != "G" for x in kinds):
+                        continue
+                    if build_tree(ds, kinds, 0, tab=SEQ_TAB) is None:
+                        continue
+                    out.append((ds, kinds))
+        _POOLS[key] = out
+    return _POOLS[key]
+
+
+def seq_step(prog_key, widths=(2, 2, 2, 2), base=0, entry="string"):
+    ds, kinds = prog_key
+    return dict(sub="tabletrees" if "T" in kinds else "trees", depths=list(ds), kinds=list(kinds), phase=0,
+                tab=SEQ_TAB, widths=list(widths), base=base, entry=entry)
+
+
+def _seq_descs(tier, k, nshard):
+    """every history that belongs to shard k of nshard (cut by the first program)"""
+    b = SEQ_BOUNDS[tier]
+    pool = seq_pool(b["kinds"], b["pair_lines"])
+    c = 0
+    for a in pool:
+        if not mine(("s", a), k, nshard):
+            continue
+        first = seq_step(a)
+        # the same program again: the same text, and every other layout of it through both entry points
+        for w in WIDTH_ROTATION:
+            for base in BASES:
+                for entry in ENTRIES:
+                    yield dict(sub="sequences", steps=[first, seq_step(a, w, base, entry)])
+        # every other program after it, in a rotating layout
+        for bprog in pool:
+            if bprog == a:
+                continue
+            c += 1
+            yield dict(sub="sequences", steps=[first, seq_step(bprog, WIDTH_ROTATION[c % len(WIDTH_ROTATION)],
+                                                               BASES[c % 4], ENTRIES[(c // 4) % 2])])
+    small = seq_pool(b["kinds"], b["triple_lines"])
+    for a in small:
+        if not mine(("s", a), k, nshard):
+            continue
+        for bprog in small:
+            for cprog in small:
+                c += 1
+                yield dict(sub="sequences", steps=[seq_step(a), seq_step(bprog, (4, 4, 4, 4), 0, "string"),
+                                                   seq_step(cprog, WIDTH_ROTATION[c % len(WIDTH_ROTATION)],
+                                                            BASES[c % 4], ENTRIES[(c // 4) % 2])])
+
+
+def _tables_of(prog, nested):
+    return set((ln["name"], tuple(c["name"] for c in ln["cols"])) for ln in prog
+               if ln["k"] == "table" and (ln["d"] > 0 or not nested))
+
+
+def run_sequence(desc, sh=None, seen=None):
+    """one history: the texts are parsed one after the other (separate DIP objects, nothing else in between), every
+    parse must give what ITS text says.  Returns a failure record for the first parse that does not."""
+    steps = []
+    for sd in desc["steps"]:
+        made = make_case(sd)
+        if made is None:
+            return None
+        prog, widths, pp, tags = made
+        text = G.render(prog, widths, pp, base=sd.get("base", 0))
+        ind = G.layout(prog, widths, pp)
+        if G.parents_by_indent_rule(prog, ind) != G.parents_by_depth(prog):
+            raise HarnessError("generator rendered an indentation that does not express its tree: %r" % (sd,))
+        try:
+            exp = G.interpret(prog)
+        except G.Rejected as e:
+            raise HarnessError("C13 generator produced a program the reference rejects: %r %s" % (sd, e))
+        steps.append(dict(desc=sd, prog=prog, tags=tags, entry=sd.get("entry", "string"), text=text, exp=exp))
+    key = ("seq",) + tuple((st["entry"], st["text"]) for st in steps)
+    if seen is not None:
+        if key in seen:
+            return None
+        seen.add(key)
+    state_restore()
+    rec = None
+    feats = set()
+    for i, st in enumerate(steps):
+        rel = set()
+        for prev in steps[:i]:
+            if prev["text"] == st["text"]:
+                rel.add("same-text-again")
+            elif (prev["desc"]["depths"], prev["desc"]["kinds"]) == (st["desc"]["depths"], st["desc"]["kinds"]):
+                rel.add("same-program-other-layout")
+            else:
+                rel.add("other-program-before")
+            if _tables_of(prev["prog"], False) & _tables_of(st["prog"], True):
+                rel.add("nested-table-again")
+            if _tables_of(prev["prog"], False) & _tables_of(st["prog"], False):
+                rel.add("table-again")
+        feats |= rel
+        got = outcome(G.execute, [st["text"]], entry=st["entry"])
+        tags = st["tags"] | rel | {"history", "parse#%d" % (i + 1), "entry:" + st["entry"]}
+        case = dict(desc=desc, texts=[x["text"] for x in steps], failing_parse=i + 1)
+        if got[0] == "err":
+            isolation.tables_restore()
+            rec = failure("sequences", case, G.expected_view(st["exp"]), list(got), tags=tags,
+                          behaviour=("" if i == 0 else "later-parse:") + G.error_class(got))
+        else:
+            diff = G.compare(st["exp"], got[1])
+            if diff:
+                rec = failure("sequences", case, G.expected_view(st["exp"]), G.observed_view(got[1]), tags=tags,
+                              behaviour=("" if i == 0 else "later-parse:") + diff)
+        if rec:
+            break
+    state_restore()
+    if sh is not None:
+        sh.evaluations += 1
+        if any(st["exp"] for st in steps):
+            sh.nontrivial += 1
+        sh.count("sub=sequences")
+        sh.count("history=%d" % len(steps))
+        sh.count("outcome=" + ("ok" if rec is None else rec["behaviour"]))
+        for f in feats:
+            sh.count("seq=" + f)
+        for e in set(st["entry"] for st in steps):
+            sh.count("seq-entry=" + e)
+        if len(sh.samples) < 2 and len(steps[-1]["text"]) > 40:
+            sh.sample(dict(sub="sequences", texts=[x["text"] for x in steps]))
+        if rec:
+            sh.fail(rec)
+    return rec
+
+
 def run_case(desc, sh=None, seen=None):
     """execute one case; returns a failure record or None"""
+    if desc["sub"] == "sequences":
+        return run_sequence(desc, sh, seen)
     made = make_case(desc)
     if made is None:
         return None
@@ -544,6 +772,7 @@ def run_case(desc, sh=None, seen=None):
     if len(exp) != ndef:
         raise HarnessError("generator produced colliding paths: %r" % (desc,))
     got = outcome(G.execute, [text], entry=entry)
+    state_restore()                   # nothing this parse left on classes / modules can reach the next case
     rec = None
     if got[0] == "err":
         isolation.tables_restore()
@@ -581,6 +810,7 @@ BOUNDS = dict(
                   pairs=True),
 )
 NSHARD = 64
+NSEQ = 32
 
 
 BASES = (0, 1, 2, 4)                  # uniform base indentation of the whole text
@@ -663,11 +893,13 @@ def plan(tier, seed):
     shards += [("lit", tier, k, 16) for k in range(16)]
     if BOUNDS[tier]["pairs"]:
         shards += [("pair", tier, k, 16) for k in range(16)]
+    shards += [("seq", tier, k, NSEQ) for k in range(NSEQ)]
     return shards
 
 
 def init_worker():
     isolation.tables_snapshot()
+    state_snapshot()
     G.prime_inspect_cache()
 
 
@@ -695,6 +927,9 @@ def run_shard(desc):
             if j % n == k:
                 for t in range(len(COMMENT_TEXTS)):
                     run_case(dict(sub="comments", tab=i, text=t), sh, seen)
+    elif kind == "seq":
+        for d in _seq_descs(tier, k, n):
+            run_case(d, sh, seen)
     elif kind == "pair":
         sub = pair_subset()
         for x, a in enumerate(sub):
@@ -709,7 +944,9 @@ def run_shard(desc):
 
 def replay(rec):
     isolation.tables_restore()
+    state_restore()
     r = run_case(rec["case"]["desc"])
+    state_restore()
     isolation.tables_restore()
     G.remove_scratch_file()
     return r
@@ -717,7 +954,8 @@ def replay(rec):
 
 def finish(total, tier, seed):
     h = total.hist
-    need = ["sub=trees", "sub=tabletrees", "base=0", "base=1", "base=2", "base=4", "sub=widths", "sub=layout", "sub=literals", "sub=tables", "sub=comments", "entry=string", "entry=file", "feature=dedent>=2",
+    need = ["sub=trees", "sub=tabletrees", "base=0", "base=1", "base=2", "base=4", "sub=widths", "sub=layout", "sub=literals", "sub=tables", "sub=comments", "sub=sequences", "history=2", "history=3", "seq=same-text-again", "seq=same-program-other-layout",
+            "seq=other-program-before", "seq=nested-table-again", "seq-entry=string", "seq-entry=file", "entry=string", "entry=file", "feature=dedent>=2",
             "feature=dotted-name", "feature=blank-line", "feature=comment-line", "feature=trailing-comment",
             "feature=table", "feature=array", "feature=block"]
     missing = [k for k in need if not h.get(k)]
@@ -730,6 +968,10 @@ def finish(total, tier, seed):
                             layout_one_decoration_lines=b["layout1_plain"]),
                 literal_alphabet=len(literals()), table_alphabet=len(table_literals()),
                 comment_shapes=len(COMMENT_TEXTS),
+                sequences=dict(pair_pool=len(seq_pool(SEQ_BOUNDS[tier]["kinds"], SEQ_BOUNDS[tier]["pair_lines"])),
+                               triple_pool=len(seq_pool(SEQ_BOUNDS[tier]["kinds"], SEQ_BOUNDS[tier]["triple_lines"])),
+                               kinds=list(SEQ_BOUNDS[tier]["kinds"]), histories=h.get("sub=sequences", 0),
+                               state_isolated_between_cases=True),
                 pair_alphabet=len(pair_subset()) if b["pairs"] else 0, caps_hit=[])
 
 MANIFEST = dict(
@@ -744,11 +986,20 @@ MANIFEST = dict(
          "forms (all type spellings, number notations, 64-bit integers at 2**53+-1, 2**63-1, 2**64-1 compared as exact "
          "Python ints, strings incl. their own quote character inside, none, inline / quoted / block arrays with 5 dimension "
          "notations) and 468 tables at root, below a group and behind a dotted name; every literal form x 18 shapes of trailing "
-         "comment (quotes of both kinds at every position in the comment) (quick ~1.4e5 programs, thorough "
-         "~1.7e6). Coverage statement: paths, order, type, precision, sign, unit and value equal what was written for "
-         "every program in these bounds.",
+         "comment (quotes of both kinds at every position in the comment); histories of parses in ONE process (each "
+         "parse by its own DIP object, each compared with its own reference): every ordered pair of the 103 trees of "
+         "<= 3 lines over group / definition / table (thorough: 268 trees, also dotted definitions; all tables with "
+         "equal blocks, so equal names, lines and table blocks recur at other places of the hierarchy), every such "
+         "tree followed by itself in 6 width assignments x 4 base indentations x 2 entry points, and every ordered "
+         "triple of the trees of <= 2 lines (quick ~1.6e4 histories, thorough ~1.1e5), with the class- and "
+         "module-level state of scinumtools.dip restored to its import-time content between cases "
+         "(quick ~1.7e5 cases, thorough ~1.8e6). Coverage statement: paths, order, type, precision, sign, unit and value equal what was written for "
+         "every program in these bounds, also when it is parsed after one or two other (or the same) programs of the "
+         "history pool in the same process.",
     note="Reference never parses text (interprets the AST); a per-case self-check ties the AST to the statement's "
          "indentation rule. Not covered: tabs, escapes, single-quoted JSON, indented block content, nodes below a "
-         "table, deeper or longer programs (small-scope hypothesis).",
-    technique="bounded grammar enumeration, reference interpreter over the generator AST, differential over layouts",
+         "table, deeper or longer programs, histories longer than 3 parses or over larger programs, state kept "
+         "outside the classes / modules of scinumtools.dip (small-scope hypothesis).",
+    technique="bounded grammar enumeration, reference interpreter over the generator AST, differential over layouts, "
+              "bounded histories of parses with process state isolated between cases",
 )
